@@ -52,6 +52,11 @@ CLAIMED = {
   note="Does not decide liveness of the ticker ('eventually') or clock behaviour.",
   technique="static analysis: map-store provenance through range statements, outcome facts, path-condition compilation + exhaustive ordering evaluation, who-may-call table",
   ref="§4 C17"),
+ "C16": dict(
+  text="Structural clauses of authentication/authorization: every HTTP handler that reaches a query/write/storage sink takes a meta.User and is wrapped by authenticate(.., Config.AuthEnabled); on every path of serveQuery/serveWrite/servePromWrite/servePromRead the sink is reached only with authentication disabled or after the matching Authorize* call returned nil; the middleware calls the inner handler only after Authenticate/User succeeded (or auth not required / no admin yet), with the default arm of the method switch shown dead; AuthorizeQuery succeeds only via bootstrap, admin, or completed per-statement/per-privilege checks, each failed check rejects, and the database checked is the statement's own; AuthorizeWrite/AuthorizeDatabase succeed only after the grant test; the credential cache is invalidated with every metadata replacement, keeps/honours entries only for the user's current hash, stores only hashes, and Authenticate always returns the record from the current metadata.",
+  note="Does not decide influxql.Statement.RequiredPrivileges, the JWT library, or flux authorization inside the reader. servePromRead is guarded by Config.PromReadAuthEnabled by design.",
+  technique="static analysis: marked path exploration with outcome/branch facts, registry/case agreement, type rules on the cache entry",
+  ref="§4 C16"),
 }
 
 NA = {
